@@ -416,8 +416,14 @@ func (g *Gen) sourceFor(h *Hidden, ringSize int, claimed *big.Int) (*types.UTXOS
 		ringSize = int(total)
 	}
 	members := map[uint64]bool{h.Index: true}
-	for len(members) < ringSize {
-		members[uint64(g.T.Int(int(total)))] = true
+	for try := 0; len(members) < ringSize; try++ {
+		m := uint64(g.T.Int(int(total)))
+		if try >= 4*ringSize {
+			// a degenerate (shrunk) tape keeps drawing the same index: fill up in order
+			for m = 0; members[m]; m++ {
+			}
+		}
+		members[m] = true
 	}
 	var idx []uint64
 	for m := range members {
